@@ -11,6 +11,8 @@
 (* shadow[i]: what the caller believes its backing array contains (only     *)
 (*            caller actions update it)                                     *)
 (* model    : the plain ordered list the property talks about               *)
+(* snap     : the last result of All() the caller still holds: the slice    *)
+(*            that was returned and the list it showed at that time         *)
 (* hist     : the behaviour, for replay on the real type (kept out of the   *)
 (*            fingerprint by VIEW in the model-checking configuration)      *)
 (*                                                                          *)
@@ -25,13 +27,13 @@ CONSTANTS MaxOps,      \* bound on the number of actions in a behaviour
           Lens,        \* set of argument lengths
           Spares,      \* set of spare capacities of argument slices
           Extras,      \* growth slack explored on reallocation (subset of 0..1)
-          Variant,     \* "code" | "prepend-nocopy" | "replace-nocopy" | "append-arg-first"
+          Variant,     \* "code" | "prepend-nocopy" | "replace-nocopy" | "append-arg-first" | "replace-inplace"
           EmitHist     \* TRUE in the generation configuration
 
-VARIABLES heap, d, args, shadow, model, fresh, hist
+VARIABLES heap, d, args, shadow, model, fresh, hist, snap
 
-vars == <<heap, d, args, shadow, model, fresh, hist>>
-view == <<heap, d, args, shadow, model, fresh, Len(hist)>>
+vars == <<heap, d, args, shadow, model, fresh, hist, snap>>
+view == <<heap, d, args, shadow, model, fresh, Len(hist), snap>>
 
 Nil == [arr |-> 0, len |-> 0, cap |-> 0]
 Blank == "-"                       \* content of a never-written cell
@@ -60,6 +62,7 @@ Init == /\ heap = <<>>
         /\ model = <<>>
         /\ fresh = 1
         /\ hist = <<>>
+        /\ snap = [s |-> Nil, was |-> <<>>]
 
 Rec(op, a, extra) == [op |-> op, arg |-> a, extra |-> extra]
 Log(r) == hist' = Append(hist, r @@ [expect |-> model', argsAfter |-> [i \in DOMAIN shadow' |-> shadow'[i]]])
@@ -68,6 +71,7 @@ CanStep == Len(hist) < MaxOps
 
 (* caller builds a new slice of length n with s spare cells *)
 NewArg(n, s) ==
+  /\ snap' = snap
   /\ CanStep /\ Len(args) < MaxArgs /\ n + s > 0
   /\ LET a == NewArr
          cells == [k \in 1..(n + s) |-> IF k <= n THEN Val(fresh + k - 1) ELSE Blank]
@@ -85,6 +89,7 @@ ArgSeq(i) == IF i = EmptyArg THEN <<>> ELSE ArgVal(i)
 ArgChoices == {EmptyArg} \cup DOMAIN args
 
 DoAppend(i, extra) ==
+  /\ snap' = snap
   /\ CanStep
   /\ LET r == IF Variant = "append-arg-first" /\ i # EmptyArg
               THEN GoAppend(heap, args[i], Content(d), extra)     \* wrong: append(decs, *d...)
@@ -95,6 +100,7 @@ DoAppend(i, extra) ==
   /\ Log(Rec("Append", i, extra))
 
 DoPrepend(i, extra) ==
+  /\ snap' = snap
   /\ CanStep
   /\ LET base == IF Variant = "prepend-nocopy" /\ i # EmptyArg
                  THEN [h |-> heap, s |-> args[i]]                  \* wrong: append(decs, *d...)
@@ -106,9 +112,12 @@ DoPrepend(i, extra) ==
   /\ Log(Rec("Prepend", i, extra))
 
 DoReplace(i, extra) ==
+  /\ snap' = snap
   /\ CanStep
   /\ LET r == IF Variant = "replace-nocopy" /\ i # EmptyArg
               THEN [h |-> heap, s |-> args[i]]                     \* wrong: *d = decs
+              ELSE IF Variant = "replace-inplace"
+              THEN GoAppend(heap, [d EXCEPT !.len = 0], ArgSeq(i), extra)   \* wrong: append((*d)[:0], decs...)
               ELSE GoAppend(heap, Nil, ArgSeq(i), extra)
      IN heap' = r.h /\ d' = r.s
   /\ model' = ArgSeq(i)
@@ -116,6 +125,7 @@ DoReplace(i, extra) ==
   /\ Log(Rec("Replace", i, extra))
 
 DoClear ==
+  /\ snap' = snap
   /\ CanStep
   /\ d' = Nil /\ model' = <<>>
   /\ UNCHANGED <<heap, args, shadow, fresh>>
@@ -123,6 +133,7 @@ DoClear ==
 
 (* the caller overwrites element k of a slice it passed (or will pass) *)
 CallerMutate(i, k) ==
+  /\ snap' = snap
   /\ CanStep /\ i \in DOMAIN args /\ k \in 1..args[i].len
   /\ heap' = [heap EXCEPT ![args[i].arr][k] = Val(fresh)]
   /\ shadow' = [shadow EXCEPT ![i][k] = Val(fresh)]
@@ -132,6 +143,7 @@ CallerMutate(i, k) ==
 
 (* the caller appends in place into the spare capacity of its own slice *)
 CallerGrow(i) ==
+  /\ snap' = snap
   /\ CanStep /\ i \in DOMAIN args /\ args[i].len < args[i].cap
   /\ heap' = [heap EXCEPT ![args[i].arr][args[i].len + 1] = Val(fresh)]
   /\ shadow' = [shadow EXCEPT ![i][args[i].len + 1] = Val(fresh)]
@@ -140,7 +152,15 @@ CallerGrow(i) ==
   /\ UNCHANGED <<d, model>>
   /\ Log([op |-> "CallerGrow", arg |-> i, extra |-> 0])
 
+(* the caller calls All() and keeps the result *)
+TakeAll ==
+  /\ CanStep
+  /\ snap' = [s |-> d, was |-> model]
+  /\ UNCHANGED <<heap, d, args, shadow, model, fresh>>
+  /\ Log([op |-> "All", arg |-> 0, extra |-> 0])
+
 Next ==
+  \/ TakeAll
   \/ \E n \in Lens, s \in Spares : NewArg(n, s)
   \/ \E i \in ArgChoices, e \in Extras : DoAppend(i, e) \/ DoPrepend(i, e) \/ DoReplace(i, e)
   \/ DoClear
@@ -159,6 +179,9 @@ ArgsIntact == \A i \in DOMAIN args : heap[args[i].arr] = shadow[i]
 
 \* the list under test never retains a caller array
 NoRetention == \A i \in DOMAIN args : d.arr # args[i].arr
+
+\* a list the caller obtained from All() keeps showing what it showed
+AllStable == snap.s.arr = 0 \/ SubSeq(heap[snap.s.arr], 1, snap.s.len) = snap.was
 
 TypeOK == /\ d.len <= d.cap
           /\ \A i \in DOMAIN args : args[i].len <= args[i].cap /\ Len(heap[args[i].arr]) = args[i].cap
